@@ -19,3 +19,5 @@ def run(ck):
     region.r5_11_constructed_rectangle_validated(ck, P)
     region.r5_12_degenerate_rectangle_follows_the_operator(ck, P)
     region.r5_13_box_difference_keeps_its_width(ck, P)
+    region.r5_14_extents_cover_only_for_single_rectangles(ck, P)
+    region.r5_15_extents_never_assigned_without_data(ck, P)
